@@ -443,6 +443,29 @@ func c31Read(paths []string) string {
 	for i, p := range paths {
 		base := filepath.Join(dir, fmt.Sprintf("p%02d", i))
 		switch {
+		case strings.HasPrefix(p, "="):
+			// the same path given again (every other time spelled differently: a/./b)
+			k, err := strconv.Atoi(p[1:])
+			if err != nil || k < 0 || k >= len(args) {
+				return "bad-op"
+			}
+			again := args[k]
+			if i%2 == 1 {
+				again = filepath.Dir(again) + "/./" + filepath.Base(again)
+			}
+			args = append(args, again)
+		case strings.HasPrefix(p, "@"):
+			// an entry of directory path k given explicitly as a file
+			parts := strings.SplitN(p[1:], "/", 2)
+			k, err := strconv.Atoi(parts[0])
+			if err != nil || len(parts) != 2 || k < 0 || k >= len(args) {
+				return "bad-op"
+			}
+			nb := unhex(parts[1])
+			if nb == nil || len(nb) == 0 {
+				return "bad-op"
+			}
+			args = append(args, filepath.Join(args[k], string(nb)))
 		case p == "m":
 			args = append(args, base+"-missing")
 		case p == "f!":
@@ -822,6 +845,33 @@ func c31Gen(rng *rand.Rand, tier string) []Case {
 			add("read2", true, fmt.Sprintf("read d:%s~j~%s d: f:-", hexs("a.json"), c1))
 		}
 	}
+	// the same file reached more than once: a path repeated, a directory repeated, a file given explicitly
+	// that also sits in a given directory — every occurrence is a source (seeded C31-e dropped the later ones)
+	for _, f := range c31Fields {
+		var v1, v2 string
+		switch f.kind {
+		case "str":
+			if strings.HasSuffix(f.name, "Raw") {
+				continue
+			}
+			v1, v2 = "s"+hexs("x"), "s"+hexs("node-1")
+		case "int":
+			v1, v2 = "i1", "i5"
+		case "list":
+			v1, v2 = "l78", "l79"
+		case "tags":
+			v1, v2 = "t61:31", "t61:32"
+		default:
+			continue
+		}
+		c1, c2 := f.name+"="+v1, f.name+"="+v2
+		add("readrep", true, fmt.Sprintf("read f:%s f:%s =0", c1, c2))
+		add("readrep", true, fmt.Sprintf("read d:%s~j~%s|%s~j~%s @0/%s", hexs("a.json"), c1, hexs("b.json"), c2, hexs("a.json")))
+		if f.kind == "list" || f.kind == "str" {
+			add("readrep", true, fmt.Sprintf("read d:%s~j~%s f:%s =0", hexs("a.json"), c1, c2))
+			add("readrep", true, fmt.Sprintf("read f:%s =0", c1))
+		}
+	}
 	add("read2", false, "read")
 	add("read2", false, "read d:")
 	add("read2", false, "read m")
@@ -868,6 +918,9 @@ func c31Gen(rng *rand.Rand, tier string) []Case {
 				paths = append(paths, "d:"+strings.Join(ents, "|"))
 			}
 		}
+		if rng.Intn(4) == 0 && len(paths) > 0 {
+			paths = append(paths, fmt.Sprintf("=%d", rng.Intn(len(paths))))
+		}
 		add("read", sources >= 2, "read "+strings.Join(paths, " "))
 	}
 	return out
@@ -877,7 +930,7 @@ func init() {
 	register(&Prop{
 		ID: "C31",
 		Rule: "systematic: every Config field (reflection over agent.Config) × every ordered pair of palette values (merge) and every triple over a reduced palette (assoc), other fields zero; " +
-			"the same base configuration merged twice (`reuse`: base lists rebuilt with cap > len, earlier result and the inputs' backing arrays re-read after the later merge); random sparse/dense pairs and triples over all fields (negative numbers, nil/empty maps and lists, empty keys); DecodeConfig on JSON renderings with every *Raw field × a palette of duration strings (valid, zero, fractional, signed, overflowing, malformed; time.ParseDuration as oracle) and unknown keys; ReadConfigPaths on real temp directories (files, directories with .json / non-.json / undecodable / sub-directory entries, missing paths) " +
+			"the same base configuration merged twice (`reuse`: base lists rebuilt with cap > len, earlier result and the inputs' backing arrays re-read after the later merge); random sparse/dense pairs and triples over all fields (negative numbers, nil/empty maps and lists, empty keys); DecodeConfig on JSON renderings with every *Raw field × a palette of duration strings (valid, zero, fractional, signed, overflowing, malformed; time.ParseDuration as oracle) and unknown keys; ReadConfigPaths with the same file reached more than once (a path or directory repeated, also spelled a/./b; a directory entry given explicitly as well); ReadConfigPaths on real temp directories (files, directories with .json / non-.json / undecodable / sub-directory entries, missing paths) " +
 			"restricted to JSON-round-tripping values; non-trivial = both later operands non-zero (pair/triple), ≥2 selected sources (read); distinct = distinct op line",
 		Gen:  c31Gen,
 		Exec: c31Exec,
